@@ -1,3 +1,17 @@
-(* C17 — statements are added with the proofs; see DESIGN.md *)
+(* C17 — A rejected buffer changes nothing. Statements only. *)
 From Coq Require Import List NArith Bool.
-From Rustun Require Import Agent.Rto Agent.Model Agent.Monitors.
+Import ListNotations.
+From Rustun Require Import Agent.Rto Agent.Model Proofs.AgentInv.
+Open Scope N_scope.
+
+(* whenever on_buffer_recv returns an error (undecodable bytes, a request, an unknown or finished transaction, a bad or
+   missing fingerprint, a message that fails authentication and is to be ignored, a long-term indication, ...): no events,
+   the outstanding table, the pending timers, the configuration and the credential state (learned algorithm, long-term
+   state and parameters) are exactly as before; the only possible difference is the documented marker, on unreliable
+   transport only *)
+Theorem C17_reject_noop : forall c now d w c' r evs,
+  step c (Recv now d w) = (c', r, evs) -> r <> ROk None ->
+  evs = [] /\ T c' = T c /\ H c' = H c /\ cfg c' = cfg c /\ mech_ c' = mech_ c /\
+  (markers c' = markers c \/ reliable (cfg c) = false /\ markers c' = ins (m_id w) (markers c)).
+Proof. exact AgentInv.reject_noop. Qed.
+Print Assumptions C17_reject_noop.
